@@ -46,7 +46,10 @@ REQUIRED = {
         ("param_update_checks", 36),
         ("warm_direct_checked", 120), ("warm_direct_index0", 80), ("warm_direct_index2", 20), ("warm_direct_jaxsafe", 16),
         ("warm_direct_landing_checked", 25), ("warm_direct_zero_change", 4), ("warm_direct_multi_iteration_cg", 30),
-        ("insitu_warm_start_calls", 200), ("insitu_landing_checked", 15),
+        ("insitu_warm_start_calls", 200), ("insitu_landing_checked", 15), ("insitu_linearisation_point_checked", 200),
+        ("entry_point_checked_warm", 200), ("entry_point_checked_cold", 200),
+        ("warm_nl_scaled_nonzero:nes", 12), ("warm_nl_scaled_nonzero:spg", 8), ("warm_nl_scaled_nonzero:bcs", 8),
+        ("warm_nl_nonzero:al", 15),
         ("scaled_solution_checked", 100), ("unscaled_solution_checked", 100), ("reference_certified", 200), ("scaling_decades_ge3", 25),
         ("steps:nes:warm", 40), ("steps:nes:cold", 40), ("steps:spg:warm", 40), ("steps:spg:cold", 40),
         ("steps:bcs:warm", 40), ("steps:bcs:cold", 40), ("steps:al:warm", 40), ("steps:al:cold", 40),
@@ -58,12 +61,13 @@ WATCHDOG_S = {"quick": 1800, "thorough": 4 * 3600}
 MIN_SCALED_SUCCESS = 0.9
 
 _REC = []
+_ENTRY = []          # points at which a minimiser was entered during the current driver call
 
 
 def build_cases(tier, seed):
     quick = tier == "quick"
     per = {"warm_direct_plain": 48, "warm_direct_scaled": 56, "warm_direct_constrained": 32, "warm_direct_jaxsafe": 24,
-           "scaled_vs_unscaled_nes": 56, "scaled_vs_unscaled_spg": 40, "seq_nes": 64, "seq_spg": 48, "seq_bcs": 40, "seq_al": 40}
+           "scaled_vs_unscaled_nes": 56, "scaled_vs_unscaled_spg": 40, "seq_nes": 64, "seq_spg": 64, "seq_bcs": 56, "seq_al": 40}
     if not quick:
         per = {k: v * 30 for k, v in per.items()}
     cases = [{"cls": "param_update", "group": "g0", "seed": derive_seed(seed, PROPERTY, "param_update", 0), "cost": 0.2}]
@@ -100,7 +104,7 @@ def build_cases(tier, seed):
                 c["tol"] = float(rng.choice([1e-8, 1e-10, 1e-6]))
                 c["refresh"] = bool(rng.random() < 0.7)
                 c["scaled"] = bool((i // 4) % 2) if cls != "seq_al" else False
-                c["decades"] = int(rng.choice([0, 1, 3])) if not c["scaled"] else int(rng.choice([1, 3, 6]))
+                c["decades"] = int(rng.choice([0, 1, 3])) if not c["scaled"] else int(rng.choice([2, 4, 6]))
                 c["slot0_only"] = bool((i // 8) % 2 == 0)
                 if cls == "seq_al":
                     c["second_order"] = bool((i // 2) % 2)
@@ -132,6 +136,30 @@ def _install_recorder():
 
     recorded_warm_start_increment._c19_recorder = True
     WarmStart.warm_start_increment = recorded_warm_start_increment
+
+    # entry-point recorder for the bound-constrained minimiser (called through the module global by TrustRegionSPG.solve)
+    from optimism import TrustRegionSPG
+    orig_spg = TrustRegionSPG.bound_constrained_trust_region_minimize
+
+    def recorded_bound_constrained_trust_region_minimize(objective, x, bounds, settings, callback=None):
+        _ENTRY.append(onp.array(x, dtype=float))
+        return orig_spg(objective, x, bounds, settings, callback=callback)
+
+    TrustRegionSPG.bound_constrained_trust_region_minimize = recorded_bound_constrained_trust_region_minimize
+
+
+def _recording_solver(solver):
+    """solver_algorithm wrapper for nonlinear_equation_solve: records the point the minimiser is entered at."""
+    def recorded_solver(objective, x, settings, callback=None):
+        _ENTRY.append(onp.array(x, dtype=float))
+        return solver(objective, x, settings, callback=callback)
+    return recorded_solver
+
+
+def _entry_callback(x, p):
+    """AL / bound-constrained front end: the public callback is invoked with the current iterate at the start of every
+    outer iteration; the first invocation is the point the solve starts from."""
+    _ENTRY.append(onp.array(x, dtype=float))
 
 
 def _params(pt):
@@ -613,19 +641,29 @@ def _run_sequence(case, res):
         p_req = _params(pt)
         pv = (pt[0], pt[2], pt[4])
         del _REC[:]
+        del _ENTRY[:]
         flag = None
         raised = False
+        # what the harness hands over: the previous step's returned solution; in the variable the objective works in
+        # that is S * x.  Multiplier state the predictor must be linearised with (bcs resets kappa before the warm start).
+        x_in = onp.array(x, dtype=float)
+        xbar_exp = S * x_in
+        lam_before = onp.array(obj.lam, dtype=float) if con is not None else None
+        kap_before = (onp.array(kappa0, dtype=float) if drv == "bcs" else onp.array(obj.kappa, dtype=float)) if con is not None else None
         with contextlib.redirect_stdout(buf):
             try:
                 if drv == "nes":
-                    x, flag = es.nonlinear_equation_solve(obj, x, p_req, sset, useWarmStart=warm, updatePrecond=refresh)
+                    x, flag = es.nonlinear_equation_solve(obj, x, p_req, sset, useWarmStart=warm, updatePrecond=refresh,
+                                                          solver_algorithm=_recording_solver(es.trust_region_minimize))
                 elif drv == "spg":
                     x, flag = spg.solve(obj, x, p_req, np.array(lb), np.array(ub), sset, useWarmStart=warm, updatePrecond=refresh)
                 elif drv == "bcs":
-                    x = BCS.bound_constrained_solve(obj, x, p_req, alS, subS, useWarmStart=warm, updatePrecond=refresh)
+                    x = BCS.bound_constrained_solve(obj, x, p_req, alS, subS, callback=_entry_callback, useWarmStart=warm,
+                                                    updatePrecond=refresh)
                     flag = True
                 else:
-                    x = AlSolver.augmented_lagrange_solve(obj, x, p_req, alS, subS, useWarmStart=warm, updatePrecond=refresh,
+                    x = AlSolver.augmented_lagrange_solve(obj, x, p_req, alS, subS, callback=_entry_callback, useWarmStart=warm,
+                                                          updatePrecond=refresh,
                                                           updatePrecondBeforeWarmStart=case["precond_before_warm"])
                     flag = True
             except NameError as e:
@@ -650,6 +688,11 @@ def _run_sequence(case, res):
             ref = _check_record(res, rec, twin, prev_req, p_req, "insitu_")
             if ref is None:
                 return res
+            # the driver must linearise at the current solution expressed in the objective's own variable
+            res.bound("insitu_warm_start_linearised_at_current_solution", float(onp.linalg.norm(rec["x"] - xbar_exp)),
+                      16 * orc.EPS * float(onp.linalg.norm(xbar_exp)) + 1e-300,
+                      {"driver": drv, "step": k, "x_given": rec["x"][:8], "x_expected": xbar_exp[:8], "scaling": S[:8]})
+            res.count("insitu_linearisation_point_checked")
             if float(onp.linalg.norm(ref["b"])) > 0:
                 res.nontrivial = True
             # landing in situ: quadratic, unconstrained, only slot 0 differs from the previous request
@@ -663,6 +706,32 @@ def _run_sequence(case, res):
                     + 1e3 * orc.EPS * ref["cond"] * (float(onp.linalg.norm(ynew)) + float(onp.linalg.norm(yold)))
                 res.bound("insitu_quadratic_landing", float(onp.linalg.norm(rec["x"] + rec["dx"] - ynew)), allowed, {"cond": ref["cond"], "step": k})
                 res.count("insitu_landing_checked")
+        # where the minimiser is entered: the given point (cold) / the dense linear predictor from that point (warm)
+        if _ENTRY:
+            entry = _ENTRY[0]
+            scale = float(onp.linalg.norm(xbar_exp))
+            if not warm:
+                res.bound("solver_entered_at_given_point", float(onp.linalg.norm(entry - xbar_exp)), 16 * orc.EPS * scale + 1e-300,
+                          {"driver": drv, "step": k})
+                res.count("entry_point_checked_cold")
+            else:
+                p0o, p2o, to = prev_pt[0], prev_pt[2], prev_pt[4]
+                g_, H_, J0_, J2_ = twin.derivs(xbar_exp, p0o, p2o, to, lam_before, kap_before)
+                pref = orc.warm_start_reference(H_, J0_, p0o, pt[0])
+                if pref["lmin"] > 0:
+                    nrm = float(onp.linalg.norm(pref["dx_ref"]))
+                    rounding = 64 * orc.EPS * (float(onp.linalg.norm(onp.abs(H_) @ onp.abs(pref["dx_ref"]))) + float(onp.linalg.norm(pref["bmag"]))) * n ** 0.5
+                    allowed = orc.CG_RTOL * pref["cond"] * nrm + rounding / pref["lmin"] + 16 * orc.EPS * (scale + nrm)
+                    res.bound("solver_entered_at_dense_predictor", float(onp.linalg.norm(entry - (xbar_exp + pref["dx_ref"]))), allowed,
+                              {"driver": drv, "step": k, "cond": pref["cond"], "predictor_norm": nrm, "scaling": S[:8]})
+                    res.count("entry_point_checked_warm")
+                    spread = float(S.max() / S.min())
+                    if E["family"] == "nl" and spread >= 10.0 and scale > 0 and nrm > 0:
+                        res.count("warm_nl_scaled_nonzero:%s" % drv)
+                    if E["family"] == "nl" and nrm > 0:
+                        res.count("warm_nl_nonzero:%s" % drv)
+        else:
+            res.count("entry_point_not_observed")
         if raised:
             res.count("driver_raised_not_converged")
             if k == 1:
